@@ -1,4 +1,4 @@
-HOOK_COMMITS = ["cb98774", "f214a4d"]
+HOOK_COMMITS = ["cb98774", "f214a4d", "64adfa9"]
 NOTES = ("All checks: ./check <ID> --tier quick|thorough. Each run rebuilds the harness against /repo's working tree, "
          "regenerates constant tables, rebuilds + axiom-audits the Lean property module, then runs the correspondence. "
          "Known findings: /verif/known_findings.json. See DESIGN.md.")
